@@ -1456,7 +1456,15 @@ func c36Check(c c36Case, r *evid.Rec) (discs []evid.Disc) {
 		}
 		sig, still := sigLateHandler, run.tr.liveCount()
 		for _, rem := range append(append([]string(nil), liveAtReturn...), startedAfter...) {
-			if _, ended, _ := run.tr.handlerOf(rem); !ended {
+			// "keeps running" must not depend on how fast an overloaded machine schedules a goroutine that is about to
+			// return: a handler gets 10 s to finish by itself before it is said to keep running
+			ended := false
+			for waited := 0; waited < 500 && !ended; waited++ {
+				if _, ended, _ = run.tr.handlerOf(rem); !ended {
+					time.Sleep(20 * time.Millisecond)
+				}
+			}
+			if !ended {
 				sig = sigLiveHandler // it keeps running
 			}
 		}
